@@ -36,7 +36,13 @@ ASSUMPTIONS = [
     'written violates it (Lean counterexamples, oracle keys zeroT-*)',
 ]
 CORPUS = os.path.join(C.ROOT, 'corpus', 'c08')
-EIG_PY = C.REPO + '/andes/routines/eig.py'
+
+
+def eig_py():
+    """the source file of the EIG routine that is actually imported"""
+    import andes.routines.eig as E
+    return E.__file__
+
 STOCK = 'kundur/kundur_full.xlsx'
 
 
@@ -45,7 +51,7 @@ STOCK = 'kundur/kundur_full.xlsx'
 def source_variants():
     """which form of the two one-line defects does the CURRENT source have?  c = as on the pinned tree,
     s = as the property needs it"""
-    tree = ast.parse(open(EIG_PY).read())
+    tree = ast.parse(open(eig_py()).read())
     neg, pf = 'c', 'c'
     for node in ast.walk(tree):
         if isinstance(node, ast.FunctionDef) and node.name == '_store_stats':
@@ -62,6 +68,20 @@ def source_variants():
                     if isinstance(sl, ast.Tuple) and len(sl.elts) == 2:
                         pf = 's' if isinstance(sl.elts[1], ast.Slice) and not isinstance(sl.elts[0], ast.Slice) else 'c'
     return neg, pf
+
+
+def sweep_variant():
+    """c = as on the pinned tree (dae.Tf is only written by the first TDS.init); s = the sweep refreshes the time
+    constants itself (calls System._store_tf or resets TDS.initialized)"""
+    tree = ast.parse(open(eig_py()).read())
+    for node in ast.walk(tree):
+        if isinstance(node, ast.FunctionDef) and node.name == 'sweep':
+            for a in ast.walk(node):
+                if isinstance(a, ast.Attribute) and a.attr == '_store_tf':
+                    return 's'
+                if isinstance(a, ast.Assign) and isinstance(a.targets[0], ast.Attribute) and a.targets[0].attr == 'initialized':
+                    return 's'
+    return 'c'
 
 
 # ------------------------------------------------------------------ helpers
@@ -186,6 +206,8 @@ def oracle_as(c, out):
         return [('zeroT-reorder-raises', 'calc_As raised (%s) for Tf with zeros at %s' % (out['err'], list(z)))]
     As = out['As']
     bad = []
+    if not np.all(np.isfinite(As)):
+        return [('state-matrix-not-finite', 'calc_As returned inf/nan entries (Tf zeros at %s)' % list(z))]
     if len(z) == 0:
         fx, fy, gx, gy = (np.reshape(c[k], s) for k, s in (('fx', (n, n)), ('fy', (n, m)), ('gx', (m, n)), ('gy', (m, m))))
         ref = (fx - fy @ np.linalg.solve(gy, gx)) / Tf[:, None]
@@ -246,7 +268,9 @@ def check_as(ctx, real, cases):
                 cond = np.linalg.cond(np.reshape(c['gy'], (m, m)))
                 if 'blk' in out and out['blk'].size:
                     cond = max(cond, np.linalg.cond(out['blk']))
-                if out['As'].shape != (dim, dim):
+                if not np.all(np.isfinite(out['As'])):
+                    ctx.disagree('calc_As-values', c, 'non-finite entries', 'finite')
+                elif out['As'].shape != (dim, dim):
                     ctx.disagree('calc_As-dim', c, str(out['As'].shape), str(dim))
                 elif out['names'] != names:
                     ctx.disagree('calc_As-names', c, str(out['names']), str(names))
@@ -469,6 +493,9 @@ def sweep_check(ctx, ss, case):
     ctx.count('sweep:initialised=%d' % init0)
     # the model is told whether TDS was initialised and which Tf was stored; it predicts the Tf of every round
     mo = ctx.driver.ask(['eigsw %d %s %s' % (int(init0), C.f2h(tf0), H(vals))])[0]
+    if sweep_variant() == 's':
+        mo = ','.join(str(Fraction(v)) for v in vals)      # a sweep that refreshes dae.Tf: the identity specification
+        ctx.count('sweep:source-refreshes-Tf')
     if fracs(mo) != [Fraction(x) for x in used]:
         ctx.disagree('sweep-Tf', c, used, mo)
     if used != vals:
@@ -516,7 +543,7 @@ def run(ctx):
     cases += [gen_pf(rng) for _ in range(ctx.n(60, 600))]
     run_cases(ctx, real, cases, vneg, vpf)
     ctx.traces = ctx.evaluations
-    ctx.cov['source_hashes'] = {k: C.hash_source(EIG_PY, 'EIG.' + k) for k in
+    ctx.cov['source_hashes'] = {k: C.hash_source(eig_py(), 'EIG.' + k) for k in
                                 ('calc_As', '_reduce', '_reorder', 'find_zero_states', '_store_stats', 'calc_pfactor',
                                  'report', 'sweep')}
 
